@@ -1,4 +1,5 @@
 import EinxModel.Proofs.ElabTotal
+import EinxModel.Proofs.RejectRoot
 /-!
 # C03 (elaboration) — `_parse_op` returns a result or raises `SemanticError`; every stated rule is enforced
 
@@ -46,6 +47,36 @@ theorem elab_total_flags (fam : Family) (fl : Flags) (hs : flagsSafe fam fl = tr
 
 /-- Every family of the source has a row of flags, and it is safe (obligation over `Einx.Extracted.familyFlags`). -/
 theorem extracted_flags_safe (fam : Family) : ∃ fl, flagsOf fam = some fl ∧ flagsSafe fam fl = true := family_flags_safe fam
+
+/-- **`elab_total_desc`**: the whole stage-1 front end of an operation — `stage1.parse_op(description)` followed by `_parse_op`
+    with the flags of the family's wrapper (tree mode) — returns `(exprs_in, exprs_out)`, raises `SyntaxError` (from the parser)
+    or raises `SemanticError`; for every family, every string and both `keepdims` values.  Composition of `parse_no_internal`,
+    `parse_root_shape` (Proofs/RejectRoot.lean) and `elab_total`. -/
+theorem elab_total_desc (fam : Family) (kd : Bool) (desc : Str) :
+    (∃ r, parseOpModel .tree fam kd desc = .ok r) ∨
+    (∃ k pos alts, parseOpModel .tree fam kd desc = .error (.syntax (.syntax k pos alts))) ∨
+    RejectedSemantic (parseOpModel .tree fam kd desc) := by
+  obtain ⟨fl, hfl, hs⟩ := family_flags_safe fam
+  unfold parseOpModel
+  rw [hfl]
+  dsimp only
+  have hni := parseOp_noint desc
+  cases hp : parseOp desc with
+  | error err =>
+    rw [hp] at hni
+    rcases err with ⟨k, pos, alts⟩ | ⟨k⟩
+    · right; left; exact ⟨k, pos, alts, rfl⟩
+    · exact hni.elim
+  | ok x =>
+    rcases parseOp_root desc x hp with ⟨ins, b1, e1, b, e, rfl⟩ | ⟨ins, b1, e1, outs, b2, e2, b, e, rfl⟩
+    · dsimp only
+      rcases (nonInternal_iff _).mp (parseOpTree_total fam fl hs (fl.addKeepdims && kd) ins none) with h | h
+      · exact Or.inl h
+      · exact Or.inr (Or.inr h)
+    · dsimp only
+      rcases (nonInternal_iff _).mp (parseOpTree_total fam fl hs (fl.addKeepdims && kd) ins (some outs)) with h | h
+      · exact Or.inl h
+      · exact Or.inr (Or.inr h)
 
 /-- The error of a result (`PRes` of trees has no decidable equality). -/
 def errOf (r : PRes (List Expr × List Expr)) : Option PErr :=
@@ -483,5 +514,15 @@ example : RejectedSemantic (parseOpTree .tree .elementwise (flagsD .elementwise)
 
 example : RejectedSemantic (parseOpTree .tree .updateAt (flagsD .updateAt) false [B (A "h"), A "p", A "p"] (some [A "h"])) :=
   update_output_brackets_rule _ (by decide) false _ _ _ [] (by decide +kernel)
+
+/-- `defects` on concrete trees: exactly the rule that was broken. -/
+example : defects .reduce (flagsD .reduce) [L [A "a", A "a", A "b"]] (some [A "b"]) = ["auto_mark_duplicate_rule"] ∧
+    defects .elementwise (flagsD .elementwise) [L [A "a", B (A "b")], A "a"] none = ["elementwise_no_bracket_rule"] ∧
+    defects .reduce (flagsD .reduce) [L [A "a", B (A "b")]] none = [] := by decide +kernel
+
+/-- `elab_total_desc`: the three branches are inhabited (descriptions, not hand-built trees). -/
+example : errOf (parseOpModel .tree .reduce false "a [b] -> a".toList) = none ∧
+    errOf (parseOpModel .tree .reduce false "a [b -> a".toList) = some (.syntax (.syntax .openingNotClosed [2] [])) ∧
+    errOf (parseOpModel .tree .reduce false "a a b -> b".toList) = some (.markDuplicate ["a".toList]) := by decide +kernel
 
 end Einx.Props.C03Elab
